@@ -487,6 +487,12 @@ func RunFree(c *Case) *Result {
 	if sum.maxIn > 1 && !race {
 		res.Direct = append(res.Direct, Direct{What: "two holders at the same time", Detail: fmt.Sprintf("free-running stream: %s; largest number of simultaneous holders %d in %d acquisitions (run took %v, lease 10 s)", sum.firstOverlap, sum.maxIn, sum.acq, sum.dur.Round(time.Microsecond))})
 	}
+	if !race && (sum.otherErr > 0 || (sum.panics > 0 && sum.acq == sum.rel)) {
+		// the storage is the real one, nothing is faulted: an attempt whose context is live either acquires or keeps waiting
+		res.Direct = append(res.Direct, Direct{What: "an acquisition attempt failed on a fault-free storage", Detail: fmt.Sprintf(
+			"free-running stream (redis=%t): %d LockWithCtx call(s) returned an error although their context was live, %d Lock/TryLock/LockWithCtx call(s) panicked; first panic: %s",
+			c.Redis, sum.otherErr, sum.panics, sum.firstPanic)})
+	}
 	if sum.acq != sum.rel && !sum.hung {
 		res.Direct = append(res.Direct, Direct{What: "Unlock of a held lock panicked", Detail: fmt.Sprintf("%d acquisitions, %d Unlock calls returned; first panic: %s", sum.acq, sum.rel, sum.firstPanic)})
 	}
